@@ -830,8 +830,19 @@ func (s *TreeShapeListener) ExitTable(ctx *parser.TableContext) {
 			}
 		}
 		if len(pks) > 0 {
-			rel.PrimaryKey = &sysl.Type_Relation_Key{
-				AttrName: pks,
+			// a table may be declared in several blocks: the key columns of this block are added
+			// to those of the earlier ones
+			if rel.PrimaryKey == nil {
+				rel.PrimaryKey = &sysl.Type_Relation_Key{}
+			}
+			for _, name := range pks {
+				known := false
+				for _, have := range rel.PrimaryKey.AttrName {
+					known = known || have == name
+				}
+				if !known {
+					rel.PrimaryKey.AttrName = append(rel.PrimaryKey.AttrName, name)
+				}
 			}
 		}
 	}
